@@ -33,6 +33,7 @@ def rand_filters(rng):
     if rng.random() < 0.45:
         op = rng.choice([
             ['add', [['extra', ["i", 7]]]], ['add', [['value', ["s", "over"]]]],
+            ['add', [['etype', ["s", "x"]]]], ['copy', 'value', 'etype'],
             ['setdefault', [['value', ["i", 9]], ['z', ["i", 1]]]], ['delete', ['previous']],
             ['permit', ['value', 'source']], ['permit', []], ['rename', 'value', 'v'],
             ['copy', 'value', 'copy'], ['modify', 'value', 'succ'],
@@ -64,9 +65,14 @@ class C02(common.Spec):
         values = [dec(v) for v in case['values']]
         sender = []
 
-        class Dest(edzed.SBlock):
+        class Dest(edzed.AddonPersistence, edzed.SBlock):
+            # (a destination with the persistence add-on, as Input, Counter and every FSM have it: the
+            # event passes through AddonPersistence.event() first)
             def init_regular(self):
                 self.set_output(0)
+
+            def _restore_state(self, state):
+                pass
 
             def _event(self, etype, data):
                 log.append(('D', int(self.name[1:]), etype, {k: enc(v) for k, v in data.items()}))
